@@ -237,6 +237,35 @@ pub fn gen(rng: &mut Rng, idx: usize, n: usize, thorough: bool) -> String {
         }
         return case_string(&rng.perm(nvr), &raw);
     }
+    // shared-literal families: a pivot in both polarities over clauses that share the same other
+    // literals pairwise -- the two branches of the pivot remove the same BAG of literal
+    // occurrences from DIFFERENT clauses (residual formulas differ; only a hash that weighs
+    // occurrences, not literals, tells them apart)
+    if frac >= 30 && rng.chance(1, 7) {
+        let nvs = rng.range(5, 6.max(maxv.min(7)));
+        let vs = rng.perm(nvs);
+        let (y, a, b, c, d) = (vs[0], vs[1], vs[2], vs[3], vs[4]);
+        let (pa, pb, pc, pd) = (rng.coin(), rng.coin(), rng.coin(), rng.coin());
+        let mut raw: Vec<Vec<L>> = vec![
+            vec![(y, true), (a, pa), (b, pb)],
+            vec![(y, false), (a, pa), (c, pc)],
+            vec![(y, true), (c, pc), (d, pd)],
+            vec![(y, false), (b, pb), (d, pd)],
+        ];
+        let all: Vec<usize> = (0..nvs).collect();
+        for _ in 0..rng.range(0, 2) {
+            let len = 2 + rng.range(0, 1);
+            raw.push(gen_clause_over(rng, &all, len));
+        }
+        rng.shuffle(&mut raw);
+        // the pivot is decided first (or second)
+        let mut order: Vec<usize> = vs.clone();
+        if rng.chance(1, 3) { order.swap(0, 1); }
+        let rest: Vec<usize> = (0..nvars_of(&raw)).filter(|v| !order.contains(v)).collect();
+        order.extend(rest);
+        order.retain(|v| *v < nvars_of(&raw));
+        return case_string(&order, &raw);
+    }
     let order = rng.perm(nv);
     let raw = if rng.chance(3, 4) { gen_structured(rng, &order, nc) } else { gen_plain(rng, nv, nc) };
     let nvr = nvars_of(&raw);
